@@ -143,7 +143,8 @@ def run(tier):
             m = meta[mm["mismatch"]]
             ln = lines[mm["mismatch"]]
             first = (m.get("msg", "") or "").split(" || ")[0].split("\nnote:")[0]
-            if "allocation of" in first or "bytes failed" in first:
+            whole = m.get("msg", "") or ""
+            if "allocation of" in whole or "bytes failed" in whole or ("failed" in first and "allocation" in whole):
                 first = "memory allocation failed"
             sig = {"family": "fault", "format": "csv" if m["base"] == "csv" else "parquet", "observed": ln["outcome"],
                    "msg": vlib.re.sub(r"\d+", "#", first)[:150]}
